@@ -33,7 +33,7 @@ def main():
         return 2
     if ctx.violations:
         return 1
-    print(f"OK property={prop} tier={a.tier} seed={seed} wall={ctx.coverage.get('wall', '')}")
+    print(f"OK property={prop} tier={a.tier} seed={seed} wall_s={round(__import__('time').time() - ctx.t0, 1)}")
     return 0
 
 
